@@ -41,6 +41,13 @@ def decOp (j : Json) : Except String Op := do
     let l ← J.getNat j "leader"
     -- leader: 0 = no endpoint published for the cluster's shard, k > 0 = leader number k
     pure (.sync (← J.getBool j "fail") (← J.getNat j "n") (if l = 0 then none else some l) (← J.getInt j "now"))
+  | "event" => pure .event
+  | "tick" =>
+    let ans ← match J.optObj j "ans" with
+      | none => pure none
+      | some a => do
+        pure (some ({ accept := ← J.getBool a "accept", limit := ← J.getInt a "limit", err := decErr (← J.getStr a "err") } : TickAnswer))
+    pure (.tick (← J.getInt j "now") ans)
   | "hb" => pure (.hb (← J.getBool j "ok") (← J.getInt j "now") (← J.getBool j "other"))
   | "reconcile" => pure .reconcileCount
   | "answer" => pure (.answer (← J.getBool j "named") (← decItem (← J.getObj j "item")))
@@ -97,7 +104,8 @@ def encObs (o : Obs) : Json :=
          ("lastAcq", J.int o.lastAcq), ("acquired", J.int o.acquired), ("overLimited", J.int o.overLimited),
          ("tokens", J.int o.tokens), ("tokenBatch", J.int o.tokenBatch), ("tokenInflight", J.int o.tokenInflight),
          ("wqps", J.int o.wqps), ("wburst", J.int o.wburst), ("ready", J.bool o.ready), ("ret", J.bool o.ret),
-         ("remoteConfig", encOpt encItem o.remoteConfig), ("leader", J.nat o.leader)]
+         ("remoteConfig", encOpt encItem o.remoteConfig), ("leader", J.nat o.leader),
+         ("event", J.bool o.event), ("lastSync", J.int o.lastSync), ("req", encOpt J.int o.req)]
 
 def optLim (j : Json) (k : String) : Except String (Option Lim) :=
   match J.optObj j k with
@@ -114,7 +122,8 @@ def decObs (j : Json) : Except String Obs := do
          overLimited := ← J.getInt j "overLimited", tokens := ← J.getInt j "tokens", tokenBatch := ← J.getInt j "tokenBatch",
          tokenInflight := ← J.getInt j "tokenInflight", wqps := ← J.getInt j "wqps", wburst := ← J.getInt j "wburst",
          ready := ← J.getBool j "ready", ret := ← J.getBool j "ret", remoteConfig := rc,
-         leader := ← J.getNat j "leader" }
+         leader := ← J.getNat j "leader", event := ← J.getBool j "event", lastSync := ← J.getInt j "lastSync",
+         req := ← optInt j "req" }
 
 def encVerdict (v : List (List String)) : Json :=
   Json.arr (v.map fun l => Json.arr (l.map Json.str).toArray).toArray
